@@ -85,4 +85,12 @@ CLAIMS = {
         'note': TB + 'signature validity, log distance and address class are observations from go-ethereum; the size model of the discv5 packet is trusted (measured end to end under C08).',
         'technique': 'Lean 4 decision-logic and arithmetic proofs + relation/step correspondence on real protocol instances',
     },
+    'C08': {
+        'text': 'Lean 4 theorems: content of at most 1175 bytes is answered inline and is exactly the stored bytes; larger content goes by connection id and '
+                'the uTP framing is inverted for the version both sides compute; the ENR reply is a sublist of any log-distance-sorted table order, '
+                'non-decreasing, without the asker, within 1175 bytes; every reply gives a datagram <= 1280. The real handler is compared on ~750 requests '
+                'and 28 end-to-end transfers between real instances (all version pairings, boundary sizes).',
+        'note': TB + 'uTP loss recovery is a dependency: the model assumes an intact ordered stream; the quick tier runs without packet loss.',
+        'technique': 'Lean 4 decision-logic/arithmetic proofs + differential correspondence on real instances + end-to-end transfers',
+    },
 }
